@@ -104,7 +104,48 @@ DKCases == {[base |-> b, s |-> DecorateAt(b, w, d), raw |-> ("rawkeys" \in DOMAI
               b \in DKBases, w \in {"root", "child"}, d \in DKDecos \cup DKRaw}
 DKOk(c) == c.s # c.base
 
+\* ------------------------------------------------------------ RD: documents (C05, other direction)
+\* Marshal(Unmarshal(d)) is d up to the DOCUMENTED normalisations: boolean forms, integral floats,
+\* omitted zero-valued keywords.  (Texts, because the normalisations are about spelling.)
+RDCases == {
+  [doc |-> "true", norm |-> "true"],
+  [doc |-> "false", norm |-> "false"],
+  [doc |-> "{}", norm |-> "true"],
+  [doc |-> "{\"not\":{}}", norm |-> "false"],
+  [doc |-> "{\"not\":true}", norm |-> "false"],
+  [doc |-> "{\"minLength\":2.0}", norm |-> "{\"minLength\":2}"],
+  [doc |-> "{\"maxItems\":3.0,\"minItems\":0}", norm |-> "{\"maxItems\":3,\"minItems\":0}"],
+  [doc |-> "{\"minimum\":1e2}", norm |-> "{\"minimum\":100}"],
+  [doc |-> "{\"multipleOf\":0.5}", norm |-> "{\"multipleOf\":0.5}"],
+  [doc |-> "{\"items\":{}}", norm |-> "{\"items\":true}"],
+  [doc |-> "{\"items\":[{},false]}", norm |-> "{\"items\":[true,false]}"],
+  [doc |-> "{\"items\":[]}", norm |-> "{\"items\":[]}"],
+  [doc |-> "{\"const\":null}", norm |-> "{\"const\":null}"],
+  [doc |-> "{\"const\":0}", norm |-> "{\"const\":0}"],
+  [doc |-> "{\"enum\":[]}", norm |-> "{\"enum\":[]}"],
+  [doc |-> "{\"anyOf\":[]}", norm |-> "{\"anyOf\":[]}"],
+  [doc |-> "{\"required\":[]}", norm |-> "true"],
+  [doc |-> "{\"allOf\":[]}", norm |-> "true"],
+  [doc |-> "{\"$defs\":{}}", norm |-> "true"],
+  [doc |-> "{\"examples\":[]}", norm |-> "true"],
+  [doc |-> "{\"properties\":{}}", norm |-> "{\"properties\":{}}"],
+  [doc |-> "{\"uniqueItems\":false,\"deprecated\":false}", norm |-> "true"],
+  [doc |-> "{\"uniqueItems\":true}", norm |-> "{\"uniqueItems\":true}"],
+  [doc |-> "{\"type\":\"string\"}", norm |-> "{\"type\":\"string\"}"],
+  [doc |-> "{\"type\":[\"string\"]}", norm |-> "{\"type\":[\"string\"]}"],
+  [doc |-> "{\"type\":[]}", norm |-> "{\"type\":[]}"],
+  [doc |-> "{\"default\":null}", norm |-> "{\"default\":null}"],
+  [doc |-> "{\"default\":{\"a\":[1,2.50]}}", norm |-> "{\"default\":{\"a\":[1,2.50]}}"],
+  [doc |-> "{\"dependencies\":{\"a\":[\"b\"],\"c\":{},\"d\":false}}", norm |-> "{\"dependencies\":{\"a\":[\"b\"],\"c\":true,\"d\":false}}"],
+  [doc |-> "{\"x\":1,\"title\":\"t\",\"y\":{\"type\":5}}", norm |-> "{\"title\":\"t\",\"x\":1,\"y\":{\"type\":5}}"],
+  [doc |-> "{\"properties\":{\"b\":{},\"a\":false}}", norm |-> "{\"properties\":{\"a\":false,\"b\":true}}"],
+  [doc |-> "{\"if\":{},\"then\":false,\"else\":{\"not\":{}}}", norm |-> "{\"if\":true,\"then\":false,\"else\":false}"],
+  [doc |-> "{\"$schema\":\"https://json-schema.org/draft/2020-12/schema\",\"$id\":\"http://h/x\",\"$anchor\":\"a\",\"$comment\":\"c\"}", norm |-> "{\"$schema\":\"https://json-schema.org/draft/2020-12/schema\",\"$id\":\"http://h/x\",\"$anchor\":\"a\",\"$comment\":\"c\"}"],
+  [doc |-> "{\"minContains\":0,\"contains\":{\"const\":null}}", norm |-> "{\"minContains\":0,\"contains\":{\"const\":null}}"],
+  [doc |-> "{\"title\":\"\",\"description\":\"\",\"format\":\"\"}", norm |-> "true"]}
+
 Cases == CASE Family = "PO" -> POCases
+           [] Family = "RD" -> RDCases
            [] Family = "RT" -> {[s |-> v] : v \in {x \in RTValues(0) : RTOk(x)}}
            [] Family = "DK" -> {c \in DKCases : DKOk(c)}
 
@@ -136,6 +177,7 @@ Emit ==
   phase = "done" =>
     PrintT(<<"CASE", ToJson(
       CASE Family = "PO" -> cs
+        [] Family = "RD" -> cs
         [] Family = "RT" -> [s |-> cs.s, dr |-> DrFor(cs.s), exp |-> Verd(cs.s), keys |-> SetToSeq(KeysOf(cs.s))]
         [] Family = "DK" -> [u |-> Single(cs.s), base |-> cs.base, exp |-> Verd(cs.base), dr |-> "2020"])>>)
 
